@@ -174,7 +174,9 @@ func runC05(c *Ctx, r *Report, tier string) {
 	for _, s := range c.storesTo(crbs) {
 		fn := c.fname(s.Fn)
 		v := c.term(s.Store.Val)
-		inClosureOf := func(anchor *ssa.Function) bool { return anchor != nil && s.Fn.Parent() != nil && c.actsForC(s.Fn, anchor) }
+		inClosureOf := func(anchor *ssa.Function) bool {
+			return anchor != nil && s.Fn.Parent() != nil && c.actsForC(s.Fn, anchor)
+		}
 		ok := (v == "true" && (inClosureOf(pa) || inClosureOf(c.Fn("(*IniParser).parse")))) || (v == "false" && c.actsFor(s.Fn, set))
 		r.Check(ok, "FLAGS", fn, "store clearReferenceBeforeSet = "+trunc(v, 60), c.ipos(s.Store), "armed with the constant true by the two parse entry passes, cleared by Set", "clearReferenceBeforeSet stored as "+trunc(v, 80)+" in "+fn)
 	}
